@@ -14,6 +14,7 @@ end-to-end: generated C/C++ programs -> clang -Xclang -ast-dump=json (referenced
 import hashlib
 import json
 import os
+import re
 import shutil
 import sys
 import time
@@ -60,6 +61,8 @@ FIXED_PROGRAMS = [
           "static int used; static int used;\nint g(void) { return used; }\n"),
     ("cpp", "struct C { static int first; int implicit; int get() const { return implicit + first; } };\nint C::first = 1;\n"
             "extern int line;\nint col() { return line; }\nint line = 3;\nint referenced(C& definition) { return definition.implicit + line; }\n"),
+    # prototype followed by the definition (known finding: the definition's parameters are not declared)
+    ("c", "int f(int a, int b);\nint f(int a, int b) { return a - b; }\nint g(int c) { return f(c, 1); }\n"),
     # a function named like the marker (known finding)
     ("c", "int prev(int a) { return a + 1; }\nint other(int b) { return prev(b) + 1; }\n"),
 ]
@@ -102,6 +105,106 @@ def gen_keyword_program(rng, k):
     return ("cpp" if cpp else "c"), "\n".join(parts) + "\n"
 
 
+# ------------------------------------------------------------------ X1b: AST dump TEXTS through parseClangAstDump
+_AST_LINE = re.compile(r"^([| `]*)[|`]-(\w+) (0x[0-9a-f]+) ?(.*)$")
+_DECL_KINDS = {"VarDecl": "V", "ParmVarDecl": "V", "FieldDecl": "V", "FunctionDecl": "F", "CXXMethodDecl": "F", "EnumConstantDecl": "E"}
+
+
+def ast_text_ops(text):
+    """translator-lite on clang's textual AST dump: the declaration / reference ops in the order in which the import
+    creates the tokens (pre-order; a MemberExpr after its base). -> list of dicts(kind, op, addr, name, param_of)"""
+    root = {"kind": "TU", "children": []}
+    stack = [(-1, root)]
+    for line in text.split("\n"):
+        m = _AST_LINE.match(line)
+        if not m:
+            continue
+        depth = len(m.group(1)) // 2
+        node = {"kind": m.group(2), "addr": m.group(3), "rest": m.group(4), "children": []}
+        while stack and stack[-1][0] >= depth:
+            stack.pop()
+        stack[-1][1]["children"].append(node)
+        stack.append((depth, node))
+    ops = []
+
+    def emit(n, fn):
+        k, rest = n["kind"], n.get("rest", "")
+        op = None
+        if k in _DECL_KINDS:
+            body = rest.split("> ", 1)[1] if "> " in rest else rest      # after the source range
+            m = re.search(r"(\S+) '", body)
+            if m and re.match(r"^[A-Za-z_]\w*$", m.group(1)) and "implicit" not in body.split("'")[0].split()[:-1]:   # markers stand before the name
+                op = {"op": _DECL_KINDS[k], "addr": n["addr"], "name": m.group(1), "kind": k, "param_of": fn[0] if (k == "ParmVarDecl" and fn) else None,
+                      "param_of_redecl": bool(k == "ParmVarDecl" and fn and fn[1])}
+                if _DECL_KINDS[k] == "F":
+                    fn = (m.group(1), bool(re.match(r"^(?:parent 0x[0-9a-f]+ )?prev 0x[0-9a-f]+ ", rest)))
+        elif k == "DeclRefExpr":
+            m = re.search(r" (Var|ParmVar|Function|EnumConstant|CXXMethod|Field) (0x[0-9a-f]+) '([^']+)'", rest)
+            if m:
+                op = {"op": "R", "addr": m.group(2), "name": m.group(3), "kind": k, "tkind": m.group(1)}
+        elif k == "MemberExpr":
+            m = re.search(r" (?:->|\.)(\w+) (0x[0-9a-f]+)", rest)
+            if m:
+                for c in n["children"]:
+                    emit(c, fn)
+                ops.append({"op": "R", "addr": m.group(2), "name": m.group(1), "kind": k, "tkind": "Field"})
+                return
+        if op:
+            ops.append(op)
+        for c in n["children"]:
+            emit(c, fn)
+    emit(root, None)
+    return ops
+
+
+def rename_ast(rng, text):
+    """rename the placeholder identifiers ID01.. of a recorded AST dump to marker words of the dump format"""
+    ids = sorted(set(re.findall(r"\bID\d\d\b", text)))
+    words = rng.sample(AST_WORDS + ["alpha", "beta", "gamma", "delta", "it", "n", "total", "node"], len(ids))
+    if rng.random() < 0.7 and "prev" not in words:
+        words[rng.randrange(len(words))] = "prev"
+    mp = dict(zip(ids, words))
+    return re.sub(r"\bID\d\d\b", lambda m: mp[m.group(0)], text)
+
+
+def compare_import(ops, mfields, hfields):
+    """model bindings vs the tokens the import produced, up to the pairing of the k-th op named n with the k-th token n.
+    -> (differences, compared, skipped_names)"""
+    toks = [tuple(x.decode("latin-1") for x in hfields[i:i + 4]) for i in range(0, len(hfields) - len(hfields) % 4, 4)]
+    by_name_ops, by_name_toks = {}, {}
+    for i, o in enumerate(ops):
+        by_name_ops.setdefault(o["name"], []).append(i)
+    for j, t in enumerate(toks):
+        if t[0] in by_name_ops:
+            by_name_toks.setdefault(t[0], []).append(j)
+    pair, skipped = {}, 0
+    for n, lst in by_name_ops.items():
+        tl = by_name_toks.get(n, [])
+        if len(tl) != len(lst):
+            skipped += 1
+            continue
+        for i, j in zip(lst, tl):
+            pair[i] = j
+    diffs, compared = [], 0
+    m = [x.decode("latin-1") for x in mfields]
+    for i, o in enumerate(ops):
+        if i not in pair:
+            continue
+        t = toks[pair[i]]
+        mvarid, mvar, mfunc, menum = m[4 * i:4 * i + 4]
+        if o["op"] == "V" or (o["op"] == "R" and o.get("tkind") in ("Var", "ParmVar", "Field")):
+            if mvar == "":
+                continue
+            d = int(mvar)
+            if d not in pair:
+                continue
+            compared += 1
+            want = str(pair[d])
+            if t[2] != want or t[1] == "0" or t[1] != toks[pair[d]][1]:
+                diffs.append((i, o, "token %d '%s': variable name token %s varId %s, expected name token %s varId %s" % (pair[i], t[0], t[2] or "none", t[1], want, toks[pair[d]][1])))
+    return diffs, compared, skipped
+
+
 def clang_ops(path):
     """clang's JSON AST -> (ops in dump order, info per token index)."""
     rc, out, _ = vlib.sh([CLANG, "-Xclang", "-ast-dump=json", "-fsyntax-only", "-w", path], timeout=120)
@@ -117,14 +220,15 @@ def clang_ops(path):
     def walk(n, anc=(), sib=0, fn=None):
         k = n.get("kind")
         if k in ("FunctionDecl", "CXXMethodDecl"):
-            fn = n.get("name")
+            fn = (n.get("name"), bool(n.get("previousDecl")))
         if k in ("VarDecl", "ParmVarDecl", "FieldDecl", "EnumConstantDecl", "FunctionDecl") and not n.get("isImplicit"):
             off = (n.get("loc") or {}).get("offset")
             if off is not None and n.get("name"):
                 ops.append(({"VarDecl": "V", "ParmVarDecl": "V", "FieldDecl": "V", "EnumConstantDecl": "E", "FunctionDecl": "F"}[k], n["id"], len(info)))
                 info.append({"kind": k, "id": n["id"], "offset": off, "name": n["name"],
                              "later_declarator": bool(k == "VarDecl" and anc and anc[-1] == "DeclStmt" and sib > 0),
-                             "param_of": fn if k == "ParmVarDecl" else None})
+                             "param_of": fn[0] if (k == "ParmVarDecl" and fn) else None,
+                             "param_of_redecl": bool(k == "ParmVarDecl" and fn and fn[1])})
         elif k == "DeclRefExpr":
             ref = n.get("referencedDecl") or {}
             off = ((n.get("range") or {}).get("begin") or {}).get("offset")
@@ -198,6 +302,58 @@ def check(run, replay):
         run.violation(key, "clangimport::Data deviates from the first-declaration-wins / bind-before-or-after rule after %d ops: model %s impl %s" % (len(c) // 3, vlib.show(m)[:12], vlib.show(i)[:12]),
                       {"stream": "decl-map", "ops": [c[k:k + 3] for k in range(1, len(c), 3)], "model": vlib.show(m), "impl": vlib.show(i),
                        "case_line": vlib.enc_case(c), "how": "echo <case_line> | build/harness/vh_c35 decl"})
+
+    # ---- X1b: recorded clang AST dump texts, identifiers renamed to the dump format's own marker words,
+    # through the real clangimport::parseClangAstDump (harness) vs the model on the ops read off the text
+    data = os.path.join(os.path.dirname(os.path.abspath(__file__)), "c35_data")
+    texts = []
+    for fn in sorted(os.listdir(os.path.join(data, "ast"))):
+        if fn.endswith(".ast"):
+            base = open(os.path.join(data, "ast", fn)).read()
+            lang = "cpp" if fn.endswith(".cpp.ast") else "c"
+            for _ in range(25 if quick else 600):
+                texts.append((fn, lang, rename_ast(rng, base)))
+    if texts:
+        opsl = [ast_text_ops(t) for _, _, t in texts]
+        addrs = []
+        mlines, hlines = [], []
+        for (fn, lang, t), ops in zip(texts, opsl):
+            fields = [str(len(ops))]
+            for k, o in enumerate(ops):
+                fields += [o["op"], str(int(o["addr"], 16)), str(k)]
+            mlines.append(vlib.enc_case(["decl"] + fields))
+            hlines.append(vlib.enc_case([lang, t]))
+        _, mo, _ = vlib.run_lines([model], mlines)
+        _, ho, he = vlib.run_lines([vh, "import"], hlines)
+        if len(ho) != len(hlines):
+            run.violation("import-died:" + hashlib.sha1(texts[min(len(ho), len(texts) - 1)][2].encode()).hexdigest()[:10],
+                          "parseClangAstDump died on a renamed AST dump of %s" % texts[min(len(ho), len(texts) - 1)][0],
+                          {"ast_text": texts[min(len(ho), len(texts) - 1)][2], "stderr": he[-500:]})
+        shown = 0
+        for (fn, lang, t), ops, ml, hl in zip(texts, opsl, mo, ho):
+            hf = vlib.dec_line(hl)
+            if hf and hf[0] == "!exc":
+                run.count("import-text", None, bucket="exception")
+                if shown < 3:
+                    shown += 1
+                    run.violation("import-exc:" + hashlib.sha1(t.encode()).hexdigest()[:10], "parseClangAstDump threw on a renamed AST dump of %s: %s" % (fn, vlib.show(hf[1])[:160]),
+                                  {"ast_text": t})
+                continue
+            diffs, ncmp, skipped = compare_import(ops, vlib.dec_line(ml)[:4 * len(ops)], hf)
+            run.count("import-text", None, nontrivial=hashlib.sha1(t.encode()).hexdigest()[:12] if ncmp else None,
+                      bucket="%s,compared<=%d,names skipped %d" % (fn, 20 * ((ncmp + 19) // 20), skipped))
+            run.extra["import_text_tokens_compared"] = run.extra.get("import_text_tokens_compared", 0) + ncmp
+            for i, o, what in diffs:
+                decl_op = o if o["op"] == "V" else next((p for p in ops if p["op"] == "V" and p["addr"] == o["addr"]), {})
+                if decl_op.get("param_of_redecl"):
+                    run.violation("e2e-unlinked-param-of-redeclared-function", "parseClangAstDump: parameter '%s' of a function that was declared before: %s" % (o["name"], what), {"ast_text": t})
+                elif decl_op.get("param_of") == "prev":
+                    run.violation("e2e-unlinked-param-of-function-named-prev", "parseClangAstDump: parameter '%s' of a function named `prev`: %s" % (o["name"], what), {"ast_text": t})
+                elif shown < 3:
+                    shown += 1
+                    run.violation("import-text:" + hashlib.sha1((t + str(i)).encode()).hexdigest()[:12],
+                                  "parseClangAstDump on a renamed AST dump of %s: %s '%s': %s" % (fn, o["kind"], o["name"], what),
+                                  {"ast_text": t, "op_index": i, "op": o, "how": "build/harness/vh_c35 import  (fields: lang, AST text)"})
 
     # ---- end-to-end with clang
     if not CLANG:
@@ -334,6 +490,9 @@ def check(run, replay):
                     bad = "clang resolved it to the declaration of another use, cppcheck to a different variable"
                 if bad == "token has no variable" and decl.get("later_declarator"):
                     run.violation("e2e-unlinked-later-declarator", "--clang: use of '%s' at %s has no variable: its declaration is the 2nd+ declarator of one statement, which the import drops" % (inf["name"], linecol(text, inf["offset"])),
+                                  {"input": text, "use_offset": inf["offset"], "clang_decl": decl})
+                elif bad == "token has no variable" and decl.get("param_of_redecl"):
+                    run.violation("e2e-unlinked-param-of-redeclared-function", "--clang: use of parameter '%s' at %s of a function that was declared before has no variable" % (inf["name"], linecol(text, inf["offset"])),
                                   {"input": text, "use_offset": inf["offset"], "clang_decl": decl})
                 elif bad == "token has no variable" and decl.get("param_of") == "prev":
                     run.violation("e2e-unlinked-param-of-function-named-prev", "--clang: use of parameter '%s' at %s of a function named `prev` has no variable" % (inf["name"], linecol(text, inf["offset"])),
